@@ -163,6 +163,11 @@ func VxH_C20_source() {
 		vx.Reach("parse-error")
 		return
 	}
+	for i := 0; i+1 < len(toks); i++ {
+		if id, ok := toks[i].(Ident); ok && id.Value == "--" && IsLiteral(toks[i+1], ">") {
+			vx.Reach("region:ident-dashdash-then-gt")
+		}
+	}
 	text := Serialize(toks)
 	back := Tokenize([]byte(text), false)
 	vx.Reach("reparsed")
